@@ -57,12 +57,17 @@ def run(ck, F, E):
     ce = F.one("Interpreter::continue_evaluating")
     if ce is not None:
         mx = max((count_calls(ce, p, "Interpreter::run_next_statement") for p in ce.paths()), default=0)
+        from lib import delegated_step
+        if mx == 0 and delegated_step(F, ce, "Interpreter::run_next_statement", "Interpreter::postprocess_result"):
+            mx = 1      # the one call sits in the closure handed to a run-once helper
         ck.require(mx == 1, "C09:ONE:continue_evaluating", "one statement per call", "exactly one run_next_statement per path",
                    "continue_evaluating calls run_next_statement %d times on some path" % mx, ce.span)
     se = F.one("Interpreter::start_evaluating")
     if se is not None:
         mx = max((count_calls(se, p, "Interpreter::evaluate_impl") for p in se.paths()), default=0)
         direct = max((count_calls(se, p, "Interpreter::run_next_statement") for p in se.paths()), default=0)
+        if mx == 0 and delegated_step(F, se, "Interpreter::evaluate_impl", "Interpreter::postprocess_result"):
+            mx = 1
         ck.require(mx == 1 and direct == 0, "C09:ONE:start_evaluating", "one statement per call", "one evaluate_impl per path",
                    "start_evaluating calls evaluate_impl %d times / run_next_statement %d times" % (mx, direct), se.span)
     mp = F.one("Interpreter::maybe_process_command")
@@ -117,6 +122,7 @@ def run(ck, F, E):
         allowed = ("Interpreter::continue_evaluating", "Interpreter::evaluate_impl", "Interpreter::maybe_process_command",
                    "Interpreter::stop_evaluating")
         from lib import allowed_via_callers
+        cs = sorted({c.split("::{closure", 1)[0] for c in cs})      # a closure of an allowed function is that function
         ck.require(all(allowed_via_callers(F, c, allowed) for c in cs), "C09:ONE:run_next_statement-callers", "one statement per call",
                    "run_next_statement is called from %s" % [c.split("::")[-1] for c in cs],
                    "run_next_statement gained a caller: %s" % cs)
